@@ -69,6 +69,23 @@ def run(pid, tier, seed):
         if not okp:
             build_broken = atext[-3000:]
 
+    # 1a. thorough tier: re-check the property file and everything it depends on with the independent checker
+    if tier == "thorough" and build_broken is None and os.environ.get("VERIF_COQCHK", "1") != "0":
+        import subprocess
+        modname = "Verde." + mod.PROPS_FILE[:-2].replace("/", ".")
+        t1 = time.time()
+        try:
+            pc = subprocess.run(["timeout", "2400", "coqchk", "-silent", "-o", "-R", os.path.join(core.COQ, "theories"), "Verde", modname],
+                                stdout=subprocess.PIPE, stderr=subprocess.STDOUT, text=True, cwd=core.COQ)
+            out = pc.stdout
+            summ = out[out.find("CONTEXT SUMMARY"):] if "CONTEXT SUMMARY" in out else out[-1500:]
+            coverage["coqchk"] = {"module": modname, "exit": pc.returncode, "wall_s": round(time.time() - t1, 1),
+                                  "summary": " ".join(summ.split())[:3000]}
+            if pc.returncode not in (0, 124):
+                build_broken = "coqchk rejected %s: %s" % (modname, out[-2000:])
+        except Exception as exc:  # coqchk not runnable: recorded, not fatal
+            coverage["coqchk"] = {"module": modname, "error": repr(exc)}
+
     # 1b. source-regenerated obligations (models / summaries regenerated from /repo on every run)
     ob_fail = []
     extra_ob = getattr(mod, "obligations", None)
